@@ -116,6 +116,9 @@ type step struct {
 	Cluster  *clusterSpec `json:"cluster,omitempty"`
 	Name     string       `json:"name,omitempty"`
 	Ready    []int        `json:"ready,omitempty"` // waitready: these stubs must be ready endpoints of Name
+	N        int          `json:"n,omitempty"`        // pops: number of picks
+	G        int          `json:"g,omitempty"`        // pops: concurrent pickers
+	Resource string       `json:"resource,omitempty"` // pops: resource of the probe request attributes
 }
 type scenario struct {
 	ID       int                 `json:"id"`
@@ -486,6 +489,7 @@ func runScenario(t *testing.T, sc scenario) []ev {
 		switch s.K {
 		case "apply":
 			w.remember()
+			w.add(ev{"k": "changing", "name": s.Cluster.Name})
 			uc := w.object(*s.Cluster)
 			cur, err := w.client.ProxyV1alpha1().UpstreamClusters().Get(context.TODO(), uc.Name, metav1.GetOptions{})
 			if err == nil {
@@ -525,6 +529,7 @@ func runScenario(t *testing.T, sc scenario) []ev {
 			w.add(ev{"k": "applied", "cluster": s.Cluster})
 		case "delete":
 			w.remember()
+			w.add(ev{"k": "changing", "name": s.Name})
 			if err := w.client.ProxyV1alpha1().UpstreamClusters().Delete(context.TODO(), s.Name, metav1.DeleteOptions{}); err != nil {
 				w.infra("delete: %v", err)
 			}
@@ -590,6 +595,14 @@ func runScenario(t *testing.T, sc scenario) []ev {
 				go func() { w.doRequest(s); close(done) }()
 				if s.WaitArr {
 					w.await("arrive", s.ID, "arrival of request "+s.ID+" at a stub")
+				} else {
+					// the request must have reached its terminal (answered by the gateway) or a stub before the next step
+					select {
+					case <-w.sigCh("arrive", s.ID):
+					case <-w.sigCh("done", s.ID):
+					case <-time.After(infraTimeout):
+						w.infra("timeout waiting for request %s to arrive or to be answered", s.ID)
+					}
 				}
 			} else {
 				w.doRequest(s)
@@ -604,6 +617,75 @@ func runScenario(t *testing.T, sc scenario) []ev {
 					w.add(ev{"k": "joined", "id": s.ID})
 				case <-time.After(5 * time.Second): // the property's only wall-clock bound (C15: cancelled promptly)
 					w.add(ev{"k": "hung", "id": s.ID})
+				}
+			}
+		case "pops":
+			ci, ok := w.ctrl.Get(s.Name)
+			if !ok {
+				w.infra("pops: no cluster %s", s.Name)
+			}
+			attrs := authorizer.AttributesRecord{User: &user.DefaultInfo{Name: "u"}, Verb: "get", APIGroup: "", Resource: s.Resource, ResourceRequest: true}
+			g := s.G
+			if g < 1 {
+				g = 1
+			}
+			seqs := make([][]int, g)
+			var wg sync.WaitGroup
+			for k := 0; k < g; k++ {
+				k := k
+				n := s.N / g
+				if k < s.N%g {
+					n++
+				}
+				wg.Add(1)
+				go func() {
+					defer wg.Done()
+					for i := 0; i < n; i++ {
+						picker, err := ci.MatchAttributes(attrs)
+						if err != nil {
+							seqs[k] = append(seqs[k], -2)
+							continue
+						}
+						e, err := picker.Pop()
+						if err != nil {
+							seqs[k] = append(seqs[k], -1)
+							continue
+						}
+						seqs[k] = append(seqs[k], w.stubOfEndpoint(e.Endpoint))
+					}
+				}()
+			}
+			wg.Wait()
+			all := []int{}
+			for _, q := range seqs {
+				all = append(all, q...)
+			}
+			w.add(ev{"k": "picks", "name": s.Name, "resource": s.Resource, "picked": all, "g": g})
+		case "joincut":
+			// join every asynchronous request whose upstream side has been cancelled (its endpoint / cluster was removed):
+			// the client side must end promptly. Requests that are legitimately still running are left alone.
+			w.mu.Lock()
+			ids := []string{}
+			for id := range w.pending {
+				ids = append(ids, id)
+			}
+			w.mu.Unlock()
+			sort.Strings(ids)
+			for _, id := range ids {
+				select {
+				case <-w.sigCh("cancelled", id):
+				default:
+					continue
+				}
+				w.mu.Lock()
+				done := w.pending[id]
+				delete(w.pending, id)
+				w.mu.Unlock()
+				select {
+				case <-done:
+					w.add(ev{"k": "joined", "id": id})
+				case <-time.After(5 * time.Second):
+					w.add(ev{"k": "hung", "id": id})
 				}
 			}
 		case "quiesce":
